@@ -34,11 +34,13 @@ pub struct P {
     /// counter-trade size of liquidation templates symbolic even with a concrete prefix
     pub sym_counter: bool,
     pub fault: Option<(&'static str, u64)>,
+    /// the vAMM reads its oracle from the repository's own price feed instead of the mock
+    pub real_feed: bool,
 }
 
 impl P {
     pub fn new(prop: &'static str, side: Side, seed: u64) -> P {
-        P { prop, native: false, dec: 9, fees: false, side, wide: false, seed, partial_sym: false, full_prefix: false, concrete_prefix: false, sym_lev: false, sym_lim: false, sym_ratios: false, bystanders: prop == "C10", sym_oracle: false, sym_counter: false, fault: None }
+        P { prop, native: false, dec: 9, fees: false, side, wide: false, seed, partial_sym: false, full_prefix: false, concrete_prefix: false, sym_lev: false, sym_lim: false, sym_ratios: false, bystanders: prop == "C10", sym_oracle: false, sym_counter: false, fault: None, real_feed: false }
     }
     pub fn native(mut self) -> P {
         self.native = true;
@@ -96,6 +98,7 @@ impl P {
     }
     pub fn cfg(&self) -> Cfg {
         let mut cfg = Cfg::base(self.native, self.dec);
+        cfg.real_feed = self.real_feed;
         let d = cfg.d();
         if self.fees {
             cfg.toll = ratio("toll", d, d / 100);
@@ -135,6 +138,10 @@ impl P {
         self.fault = Some((site, n));
         self
     }
+    pub fn real_feed(mut self) -> P {
+        self.real_feed = true;
+        self
+    }
     pub fn oracle(mut self) -> P {
         self.sym_oracle = true;
         self
@@ -160,6 +167,7 @@ impl P {
         ) + if self.sym_ratios { ".ratios" } else { "" }
             + if self.sym_oracle { ".oracle" } else { "" }
             + if self.sym_counter { ".counter" } else { "" }
+            + if self.real_feed { ".realfeed" } else { "" }
     }
     fn prefix_mode(&self) {
         symrt::set_full(self.full_prefix);
@@ -444,5 +452,76 @@ pub fn t_fund_pclose(p: P) -> impl Fn() {
         r.w.next_block(15);
         assert!(r.w.update_vamm(0, None, None, None, None, Some(Uint128::zero()), None).ok);
         r.step(Op::Close { who: ALICE, limit: Uint128::zero() });
+    }
+}
+
+/// T-fund-liq: alice 10x under water, bob opposite; a funding settlement (symbolic oracle), then
+/// alice is liquidated (fully, or partially with a 25% ratio and a small fee), then the bystander
+/// bob withdraws and closes
+pub fn t_fund_liq(p: P, partial: bool) -> impl Fn() {
+    move || {
+        let mut cfg = p.cfg();
+        let d = cfg.d();
+        cfg.init_ratio = Uint128::new(d / 10);
+        if partial {
+            cfg.partial_ratio = Uint128::new(d / 4);
+            cfg.liq_fee = Uint128::new(d / 100);
+        }
+        let mut r = p.run_cfg(cfg);
+        p.prefix_mode();
+        let l = Uint128::new(10 * d);
+        assert!(r.step(Op::Open { who: ALICE, side: p.side.clone(), margin: Uint128::new(25 * d), lev: l, limit: Uint128::zero(), funds: None }).tx.ok);
+        r.w.next_block(15);
+        let units = if partial { 5 } else { 45 };
+        assert!(r.step(Op::Open { who: BOB, side: opp(&p.side), margin: Uint128::new(units * d), lev: l, limit: Uint128::zero(), funds: None }).tx.ok);
+        r.w.next_block(86_400);
+        let price = crate::sx::var("oracle", 1, 1_000 * d, (if p.seed % 2 == 0 { 9 } else { 12 }) * d);
+        let now = r.w.now();
+        r.w.set_oracle(price, now);
+        symrt::set_full(true);
+        if !r.step(Op::PayFunding { by: EVE }).tx.ok {
+            return;
+        }
+        r.w.next_block(15);
+        r.step(Op::Liquidate { by: LIQ, trader: ALICE, limit: Uint128::zero() });
+        r.w.next_block(15);
+        let b = amount("wd", d, false, 1);
+        r.step(Op::Withdraw { who: BOB, amount: b });
+        r.step(Op::Close { who: BOB, limit: Uint128::zero() });
+    }
+}
+
+/// T-liq-prepaid: three traders on the same side; the first closes with a profit that the vault
+/// cannot cover (insurance fund pre-pays: prepaid bad debt > 0, vault empty), then the second,
+/// now deeply under water, is liquidated by a third party
+pub fn t_liq_prepaid(p: P) -> impl Fn() {
+    move || {
+        let mut cfg = p.cfg();
+        let d = cfg.d();
+        cfg.maint_ratio = ratio("maint", d, d / 20);
+        cfg.init_ratio = Uint128::new(d / 10);
+        cfg.liq_fee = ratio("liq_fee", d, d / 20);
+        symrt::assume(crate::sx::s(cfg.maint_ratio).le(crate::sx::c(d / 10)));
+        let mut r = p.run_cfg(cfg);
+        p.prefix_mode();
+        let l = Uint128::new(10 * d);
+        let u = 18 + (p.seed % 5) as u128;
+        for (who, m, lv) in [(ALICE, u, l), (BOB, u, l), (CAROL, 5, Uint128::new(d))] {
+            let mg = Uint128::new(m * d);
+            let f = funds_for(&r, &p, mg, lv);
+            if !r.step(Op::Open { who, side: p.side.clone(), margin: mg, lev: lv, limit: Uint128::zero(), funds: f }).tx.ok {
+                return;
+            }
+            r.w.next_block(15);
+        }
+        if !r.step(Op::Close { who: ALICE, limit: Uint128::zero() }).tx.ok {
+            return;
+        }
+        r.w.next_block(1000);
+        symrt::set_full(true);
+        r.step(Op::Liquidate { by: LIQ, trader: BOB, limit: Uint128::zero() });
+        // and the remaining trader can still be dealt with afterwards
+        r.w.next_block(15);
+        r.step(Op::Liquidate { by: LIQ, trader: CAROL, limit: Uint128::zero() });
     }
 }
